@@ -54,7 +54,7 @@ def dec_in(sx):
         return W.dec_frame(sx[1], S)
     if sx[0] == 'num':
         v = W.dec_v(sx[1], S)
-        return int(v) if v == int(v) and int(v) % 2 == 1 else v     # odd whole numbers travel as python ints
+        return int(v) if not math.isnan(v) and v == int(v) and int(v) % 2 == 1 else v     # odd whole numbers travel as python ints
     if sx[0] == 'L':
         return [dec_in(v) for v in sx[1:]]
     raise ValueError('bad operand')
@@ -79,6 +79,10 @@ def enc_out(r, sort_columns=False):
             cols.sort(key=lambda j: str(r.columns[j]))
         return '(df (T (L%s) (D%s)))' % (''.join(' ' + W.enc_t(t) for t in r.index),
                                          ''.join(' (%s (L%s))' % (proto.hexs(str(r.columns[j])), ''.join(' ' + enc_q(v) for v in r.iloc[:, j].values)) for j in cols))
+    if isinstance(r, pd.Series) and r.dtype == bool:
+        return '(bts (L' + ''.join(' (T %s %s)' % (W.enc_t(t), 'true' if v else 'false') for t, v in zip(r.index, r.values)) + '))'
+    if isinstance(r, (bool, np.bool_)):
+        return '(flag %s)' % ('true' if r else 'false')
     if isinstance(r, pd.Series):
         return '(ts (L' + ''.join(' (T %s %s)' % (W.enc_t(t), enc_q(v)) for t, v in zip(r.index, r.values)) + '))'
     if isinstance(r, (int, float, np.integer, np.floating)):
@@ -194,9 +198,58 @@ def gen_frames(rng, tier):
         yield dict(tag='aggf/%s/%d/%s/%s/%s/%s/%s' % (g, k, rel, crel, how, m, ch), lines=['(ops aggf %s %s %s %s %s)' % (g, enc_in(fs), how, m, ch)])
 
 
+POWB = [0.0, 1.0, 1.0, -1.0, 2.0, 0.5, -0.5, 3.0, 1.5, -0.25]
+POWE = [0.0, 0.0, 1.0, 2.0, 3.0, 2.0]
+
+
+def gen_others(rng, tier):
+    """comparisons, min_/max_, pow_ (non-negative integer exponents) on Series and scalars"""
+    n = 450 if tier == 'quick' else 9000
+    for _ in range(n):
+        kind = rng.choice(['cmp', 'cmp', 'mm', 'mm', 'pow'])
+        how, m = rng.choice(HOWS), rng.choice(METHODS)
+        num = lambda: rng.choice([0.0, 1.0, 2.0, -0.5, 4.0, 1, 0.25, nan])
+        if kind == 'mm':
+            k = rng.choice([1, 2, 2, 3, 4])
+            ss, rel = rand_operands(rng, k, VALS)
+            shape = rng.choice(['list-none', 'ts-ts', 'ts-list', 'ts-num', 'num-ts', 'list-num', 'num-num', 'none'])
+            if shape == 'list-none':
+                a, b = ss + ([num()] if rng.random() < 0.3 else []), None
+            elif shape == 'ts-ts':
+                a, b = ss[0], ss[-1]
+            elif shape == 'ts-list':
+                a, b = ss[0], ss[1:]
+            elif shape == 'ts-num':
+                a, b = ss[0], num()
+            elif shape == 'num-ts':
+                a, b = num(), ss[0]
+            elif shape == 'list-num':
+                a, b = ss, num()
+            elif shape == 'num-num':
+                a, b = num(), num()
+            else:
+                a, b = [], None
+            yield dict(tag='mm/%s/%s/%s/%s' % (shape, rel, how, m), lines=['(ops mm %s %s %s %s %s)' % (rng.choice(['min', 'max']), enc_in(a), enc_in(b), how, m)])
+            continue
+        shape = rng.choice(['ts-ts', 'ts-ts', 'ts-ts', 'ts-num', 'num-ts', 'num-num'])
+        if kind == 'cmp':
+            ss, rel = rand_operands(rng, 2, [0.0, 1.0, 1.0, -1.0, 2.0, 0.5])
+            a = ss[0] if shape[:2] == 'ts' else num()
+            b = ss[1] if shape[-2:] == 'ts' else num()
+            yield dict(tag='cmp/%s/%s/%s/%s' % (shape, rel, how, m), lines=['(ops cmp %s %s %s %s %s)' % (rng.choice(['gt', 'ge', 'lt', 'le']), enc_in(a), enc_in(b), how, m)])
+        else:
+            rel = rng.choice(['disjoint', 'nested', 'super', 'overlap', 'overlap'])
+            da = A.rand_days(rng, 'overlap', [])
+            db = A.rand_days(rng, rel, da)
+            a = rand_series(rng, da, POWB) if shape[:2] == 'ts' else rng.choice(POWB + [nan, 1])
+            b = rand_series(rng, db, POWE) if shape[-2:] == 'ts' else rng.choice(POWE + [nan, 1, 3])
+            yield dict(tag='pow/%s/%s/%s/%s' % (shape, rel, how, m), lines=['(ops pow %s %s %s %s)' % (enc_in(a), enc_in(b), how, m)])
+
+
 def generate(rng, tier):
     yield from gen_series(rng, tier)
     yield from gen_frames(rng, tier)
+    yield from gen_others(rng, tier)
 
 
 def gen_series(rng, tier):
@@ -257,6 +310,20 @@ def run_line(state, sx):
         before = A.snapshot_tree(xs)
         res = _fn('df_' + args[0])(xs, join=args[2], method=A.dec_method(args[3]))
         if not A.same_tree(xs, before):
+            return 'violation input-modified'
+        return 'ok ' + enc_out(res)
+    if op in ('cmp', 'mm'):
+        a, b = dec_in(args[1]), dec_in(args[2])
+        before = A.snapshot_tree([a, b])
+        res = _fn(args[0] + '_')(a, b, join=args[3], method=A.dec_method(args[4]))
+        if not A.same_tree([a, b], before):
+            return 'violation input-modified'
+        return 'ok ' + enc_out(res)
+    if op == 'pow':
+        a, b = dec_in(args[0]), dec_in(args[1])
+        before = A.snapshot_tree([a, b])
+        res = _fn('pow_')(a, b, join=args[2], method=A.dec_method(args[3]))
+        if not A.same_tree([a, b], before):
             return 'violation input-modified'
         return 'ok ' + enc_out(res)
     if op == 'binf':
